@@ -109,6 +109,17 @@ def check(run, replay=None):
         run.notes["long_script_steps"] = sum(len(t["steps"]) for t in traces)
         run.notes["long_script_observed_steps"] = sum(1 for t in traces for st in t["steps"] if st["obs"])
         run.notes["longest_sequence_observed"] = max(len(r["elems"]) for t in traces for st in t["steps"] for o in st["obs"] for r in o["regs"])
+        # ---- 3b. persistent values shared between goroutines: four goroutines go on from a common prefix at once, each with
+        #          its own registers; each one's history (prefix + own steps) is judged as the sequential history it is
+        traces, died = record_concurrent(binp, d, seed=run.seed, rounds=40 if thorough else 8)
+        nv = len(run.violations)
+        if traces:
+            judge_traces(run, traces, d, "conc")
+        run.notes["concurrent_histories"] = len(traces)
+        if died:
+            run.notes["concurrent_processes_that_died"] = [n for n, _ in died]
+            if len(run.violations) == nv:
+                raise Infra("seqadtdrv concurrent died for %s and no concurrent history shows a violation:\n%s" % ([n for n, _ in died], died[0][1]))
         # ---- 4. random longer scripts, judged by TLC
         for b in range(4 if thorough else 1):
             traces = record_random(binp, d, "rnd%d" % b, seed=run.seed * 100 + b, n=30 if thorough else 12, ops=120 if thorough else 40)
@@ -146,6 +157,38 @@ def replay_cases(run, binp, d, tag, cases, c):
     run.notes["observations_compared"] = run.notes.get("observations_compared", 0) + stats["observations"]
     if nd:
         run.notes["ilayer_drift_findings"] = run.notes.get("ilayer_drift_findings", 0) + nd
+
+
+MACHINES = ["list/int", "slice/int", "list/string", "slice/string", "list/any", "slice/any", "list/ptr", "slice/ptr"]
+
+
+def record_concurrent(binp, d, seed, rounds):
+    """One process per machine (implementation x element type): a library that shares mutable state between goroutines tears
+    strings / interfaces / pointers and may take the whole process down (fatal error in the runtime, no library frame on the
+    stack); with int elements the same defect shows as wrong elements.  Returns (traces, names of the machines whose process died)."""
+    from concurrent.futures import ThreadPoolExecutor
+
+    def one(mi):
+        name = MACHINES[mi]
+        outp = os.path.join(d, "traces_conc_%d.jsonl" % mi)
+        p = common.run_bin(binp, ["-test.run", "TestConcurrent"], env=dict(VERIF_MODE="conc", VERIF_SEED=seed * 10 + mi, VERIF_N=rounds, VERIF_OUT=outp, VERIF_MACH=name))
+        recs = []
+        if os.path.exists(outp):
+            for l in open(outp):
+                try:
+                    recs.append(json.loads(l))
+                except Exception:
+                    pass
+        stats = [x for x in recs if x.get("t") == "stats"]
+        traces = [x for x in recs if x.get("t") != "stats"]
+        if p.returncode != 0 or not stats or stats[0]["traces"] != len(traces):
+            return name, [], (p.stdout + p.stderr)[-1500:]
+        return name, traces, None
+    with ThreadPoolExecutor(4) as ex:
+        res = list(ex.map(one, range(len(MACHINES))))
+    traces = [t for _, ts, _ in res for t in ts]
+    died = [(n, why) for n, _, why in res if why is not None]
+    return traces, died
 
 
 def record_random(binp, d, tag, seed, n, ops):
@@ -203,8 +246,9 @@ def judge_traces(run, traces, d, tag):
                 seen.add((impl, pred))
                 ob = last["obs"][c - 1]
                 run.violation({"kind": pred, "impl": impl.split("/")[0]},
-                              "%s: after %s register r%d: %s (observed %s)" % (impl, script_text(steps), reg - 1, WHAT.get(pred, pred),
-                                                                              json.dumps(ob["regs"][reg - 1] if ob["regs"] else ob["panic"])[:400]),
+                              "%s%s: after %s register r%d: %s (observed %s)" % (impl, (" (one of %d goroutines that go on from the common prefix - the first three steps - at once, each with its own registers)" % t["conc"]) if t.get("conc") else "",
+                                                                                script_text(steps), reg - 1, WHAT.get(pred, pred),
+                                                                                json.dumps(ob["regs"][reg - 1] if ob["regs"] else ob["panic"])[:400]),
                               {"mode": "trace", "hist": [dict({k: s[k] for k in ("op", "i", "j", "x", "xs")}, quiet=not s["obs"]) for s in steps[:-1]]
                                                         + [{k: last[k] for k in ("op", "i", "j", "x", "xs")}],
                                "finding": {"impl": impl, "reg": reg, "pred": pred}})
